@@ -858,6 +858,35 @@ func runC03(c *Ctx) {
 					good = true
 				}
 			}
+			// … or a predicate of the state that says the same: evaluated on the state being none and being each quote
+			if !good {
+				var stateName string
+				ast.Inspect(call.Args[1], func(y ast.Node) bool {
+					if id, ok := y.(*ast.Ident); ok && stateName == "" {
+						if v, isVar := pinfo.ObjectOf(id).(*types.Var); isVar {
+							if nt, isNamed := v.Type().(*types.Named); isNamed && isStringType(nt.Underlying()) {
+								stateName = id.Name
+							}
+						}
+					}
+					return true
+				})
+				if stateName != "" {
+					all := true
+					for _, probe := range []struct {
+						state string
+						want  bool
+					}{{"", false}, {`"`, true}, {"'", true}, {"`", true}} {
+						ce := newCenv(pinfo, pp.Types, allFuncDecls(pp))
+						ce.byText[stateName] = constant.MakeString(probe.state)
+						v, ok := ce.eval(call.Args[1], map[types.Object]ast.Expr{})
+						if !ok || v.Kind() != constant.Bool || constant.BoolVal(v) != probe.want {
+							all = false
+						}
+					}
+					good = all
+				}
+			}
 			c.check(good, "C03.R4", key, c.pos(call.Pos()), "flag = "+types.ExprString(call.Args[1]),
 				"the parser marks Go code in a script as inside a string literal by "+types.ExprString(call.Args[1])+" instead of `delimiter != none`")
 			return true
@@ -990,6 +1019,24 @@ func runC03(c *Ctx) {
 					}
 				}
 				viaEsc, viaJSON := false, false
+				// a one-line wrapper of the escaper — func escapeForJSStringLiteral(s string) string { return replace(s, table) } —
+				// is the escaper
+				if call, ok := e.(*ast.CallExpr); ok {
+					if fn := calleeOf(rinfo, call); fn != nil && fn.Pkg() == rp.Types {
+						for _, wfd := range allFuncDecls(rp) {
+							if rinfo.Defs[wfd.Name] != types.Object(fn) || wfd.Body == nil || len(wfd.Body.List) != 1 || wfd == esc {
+								continue
+							}
+							if ret, ok := wfd.Body.List[0].(*ast.ReturnStmt); ok && len(ret.Results) == 1 {
+								if inner, ok := ast.Unparen(ret.Results[0]).(*ast.CallExpr); ok {
+									if ifn := calleeOf(rinfo, inner); ifn != nil && esc != nil && types.Object(ifn) == rinfo.Defs[esc.Name] {
+										viaEsc = true
+									}
+								}
+							}
+						}
+					}
+				}
 				if call, ok := e.(*ast.CallExpr); ok {
 					if fn := calleeOf(rinfo, call); fn != nil && esc != nil && types.Object(fn) == rinfo.Defs[esc.Name] {
 						viaEsc = true
@@ -1549,6 +1596,30 @@ func nameGuarded(fn *ssa.Function, prm *ssa.Parameter, patVar string, depth int)
 				} else if _, isC := e.(*ssa.Const); !isC {
 					return false, "merged with a non-constant replacement"
 				}
+			}
+			sawGuard = true
+		case *ssa.Return:
+			// a validating function: `if !pat.MatchString(name) { return <constant> }; return name` — the name is handed
+			// back only from the block that is entered when the match succeeded
+			b := x.Block()
+			okRet := false
+			if len(b.Preds) == 1 {
+				if iff, isIf := b.Preds[0].Instrs[len(b.Preds[0].Instrs)-1].(*ssa.If); isIf {
+					cond, neg := iff.Cond, false
+					if u, isU := cond.(*ssa.UnOp); isU && u.Op == token.NOT {
+						cond, neg = u.X, true
+					}
+					succ := 0
+					if neg {
+						succ = 1
+					}
+					if matchCalls[cond] && b.Preds[0].Succs[succ] == b {
+						okRet = true
+					}
+				}
+			}
+			if !okRet {
+				return false, "returned on a path that did not pass the pattern test"
 			}
 			sawGuard = true
 		default:
